@@ -48,10 +48,23 @@ def composed_history(rng):
         elif st == "in-catch": body = "try { throw 1 } catch e { return %s(n) }" % nxt
         else: body = "for i := 0; i < 3; i++ { try { if i == 1 { continue }; if i == 2 { %s(n) } } finally { y := i } }" % nxt
         lines.append("var f%d\nf%d = func(n) {\n%s\n}" % (i, i, body))
-    lines.append("return f1(%d)" % rng.randrange(0, 4))
+    call = "f1(%d)" % rng.randrange(0, 4)
+    # the main function itself may be inside try / catch / finally when the run ends below it
+    wrap = rng.randrange(5)
+    if wrap == 0: lines.append("return " + call)
+    elif wrap == 1: lines.append("try { return %s } catch e { return \"caught\" }\nreturn \"done\"" % call)
+    elif wrap == 2: lines.append("try { %s } finally { q := 1 }\nreturn \"done\"" % call)
+    elif wrap == 3: lines.append("for i := 0; i < 2; i++ { try { %s } catch e { continue } finally { q := i } }\nreturn \"done\"" % call)
+    else: lines.append("try { throw 1 } catch e { %s } finally { q := 2 }" % call)
+    styles.append("main%d" % wrap)
     return ("composed:" + "/".join(reversed(styles)) + ":" + term.split("\n")[0][:12], "\n".join(lines), ms)
 
 OBS = [
+ # observed scripts that end with an uncaught error, at several instruction offsets
+ ("x := 10\ny := x - 10\nif y == 0 { return x / y }\nx = y\nreturn \"no error\"", []),
+ ("throw \"observed\"", []),
+ ("a := [1, 2]\nb := a[0] + a[1]\nc := b * 2\nreturn a[c]", []),
+ ("f := func(n) { return n / (n - n) }\ng := func(n) { return f(n) + 1 }\nreturn g(3)", []),
  ("g1 := func(a) { return a + 1 }\ng2 := func(a) { return g1(a) * 2 }\ng3 := func(a) { return g2(a) + g1(a) }\ng4 := func(a) { try { return g3(a) } finally { q := 0 } }\ng5 := func(a) { return g4(a) - g3(a) }\nreturn [g1(1), g2(2), g3(3), g4(4), g5(5)]", []),
  ("param (a, ...b)\nx := 0\nfor i := 0; i < 5; i++ { x += i }\nf := func() { return x + a }\nreturn [f(), b]", [["i", "7"], ["i", "8"]]),
  ("m := import(\"m1\")\nreturn [m.next(), m.next()]", []),
